@@ -14,7 +14,11 @@ def cvals(vals):
 def gen(ctx, label, n, allow_multi):
     rng = ctx.rng(label)
     for k in range(n):
-        ast = instgen.gen_ast(rng)
+        if k % 6 == 5:
+            # multi-digit ids: projects 10, 20, ... and students beyond 9 must be handled like any other
+            ast = instgen.gen_ast(rng, maxS=12, maxP=22, maxL=4, S=rng.randint(6, 12), P=rng.randint(10, 22))
+        else:
+            ast = instgen.gen_ast(rng)
         twopl = rng.random() < 0.6
         text = instgen.render(ast)
         rows = [[p for g in gs for p in g] for gs in ast['first']]
@@ -134,7 +138,18 @@ class ResultsRun(lpcommon.LPRelation):
                     out.append(c)
             return out
         n = self.n_thorough if ctx.thorough else self.n_quick
-        return lpcommon.gen_lp_cases(ctx, self.name, n, crit_names=names)
+        for c in lpcommon.gen_lp_cases(ctx, self.name, n, crit_names=names):
+            yield c
+        # larger instances (multi-digit project and student ids); judged from the file and the matching line only
+        rng = ctx.rng(self.name + '/large')
+        for i in range(n // 6):
+            ast = instgen.gen_ast(rng, maxS=12, maxP=22, maxL=4, S=rng.randint(8, 12), P=rng.randint(10, 22),
+                                  zero_caps=False, lower=False)
+            twopl = rng.random() < 0.5
+            crits = lpcommon.gen_crits(rng, ast, names=rng.choice([['maxsize'], ['maxsize', 'mincost'], ['gre'], ['lsb', 'maxsize']]))
+            argv = lpcommon.argv_of(ast['na'], twopl, False, False, crits, rng)
+            yield dict(text=instgen.render(ast), na=ast['na'], twopl=twopl, pc=False, stab=False,
+                       crits=[[c, x] for c, x in crits], argv=argv, ast=ast)
 
     def observe(self, inp):
         return lpcommon.lp_run(inp['text'], inp['argv'], getters=('get_results', 'get_results_long'))
